@@ -113,6 +113,8 @@ def make(kind, seed, world, ip, tap, reach):
 
     # ------------------------------------------------------------------------------------------------------------
     if kind in ('foreign_child_response', 'widen_response', 'flip_mode_response', 'narrow_rekey_response'):
+        flip_rekeys_only = r0.random() < 0.5
+
         def rule(meta, data):
             try:
                 h = R.dec_header(data)
@@ -229,6 +231,8 @@ def make(kind, seed, world, ip, tap, reach):
                     return None
                 what = f'selectors widened ({which})'
             else:
+                if flip_rekeys_only and (req is None or not any(p['type'] == R.P_NOTIFY and p['ntype'] == R.N_REKEY_SA for p in req['payloads'])):
+                    return None          # half of the runs leave the CHILD_SAs come into being and tamper only with the answers to rekeys
                 has = [p for p in pls if p['type'] == R.P_NOTIFY and p['ntype'] == R.N_USE_TRANSPORT_MODE]
                 if has:
                     pls.remove(has[0])
@@ -463,7 +467,7 @@ def make(kind, seed, world, ip, tap, reach):
         # specification forbids, values out of range, missing / duplicated payloads, or octets of the plaintext damaged before sealing
         p_hit = r0.choice([0.1, 0.25, 0.6])
         until = world.scenario.get('quiet_from')
-        MUTS = ('sa_spi_len', 'ke_len', 'ke_value', 'nonce_len', 'ts_inverted', 'ts_odd', 'ts_empty', 'delete_spi_size', 'delete_unknown',
+        MUTS = ('sa_spi_len', 'decoy_then_bad_spi', 'decoy_then_bad_spi', 'ke_len', 'ke_value', 'nonce_len', 'ts_inverted', 'ts_odd', 'ts_empty', 'delete_spi_size', 'delete_unknown',
                 'notify_spi', 'notify_data', 'dup_payload', 'drop_payload', 'proposal_odd', 'id_odd', 'auth_odd', 'raw_flip', 'raw_trunc',
                 'add_delete', 'add_rekey_notify', 'unknown_critical', 'swap_exchange')
 
@@ -492,6 +496,21 @@ def make(kind, seed, world, ip, tap, reach):
                 sa, ke, no, tsi = find(R.P_SA), find(R.P_KE), find(R.P_NONCE), find(R.P_TSi, R.P_TSr)
                 if m == 'sa_spi_len' and sa and sa['proposals']:
                     sa['proposals'][r.randrange(len(sa['proposals']))]['spi'] = rb(r.choice([0, 1, 3, 5, 7, 8, 9, 16, 255]))
+                elif m == 'decoy_then_bad_spi' and sa and sa['proposals'] and sa['proposals'][0]['proto'] != R.PROTO_IKE:
+                    # several proposals: a well-formed first one nobody can accept (other protocol / unsupported integrity), then the acceptable
+                    # one with an SPI of a forbidden size - what is checked on the first proposal says nothing about the one that is chosen
+                    good = sa['proposals'][0]
+                    decoy = copy.deepcopy(good)
+                    if r.random() < 0.5:
+                        decoy['proto'] = R.PROTO_AH if good['proto'] == R.PROTO_ESP else R.PROTO_ESP
+                    else:
+                        for t in decoy['transforms']:
+                            if t['type'] == R.T_INTEG:
+                                t['id'] = 5
+                    decoy['spi'] = rb(4)
+                    good['spi'] = rb(r.choice([0, 1, 3, 5, 8, 16]))
+                    decoy['num'], good['num'] = 1, 2
+                    sa['proposals'] = [decoy, good]
                 elif m == 'ke_len' and ke:
                     ke['data'] = r.choice([b'', ke['data'][:-1], ke['data'] + b'\0', ke['data'][:1], ke['data'] * 2])
                 elif m == 'ke_value' and ke:
